@@ -49,6 +49,13 @@ def source_docs(tier, rng):
         out.append((f'{what}: roStoryAppend', TJ.to_text(B.story_append([B.story('P1', [])], message_id=mid, ro_id=rid))))
         out.append((f'{what}: roCreate', TJ.to_text(B.ro_doc([B.story('P1', [])], message_id=mid, ro_id=rid))))
         out.append((f'{what}: roDelete', TJ.to_text(B.ro_delete(message_id=mid, ro_id=rid))))
+    # vendor payloads in XML namespaces (prefixed, default, on attributes): every source keeps them as they are
+    NS = '{urn:example:vendor}'
+    out.append(('namespaced payload: roStorySend', TJ.to_text(B.story_send('A', [B.item('a1', extra=[E('mosExternalMetadata', E('mosSchema', text='v'), E('mosPayload',
+                E(NS + 'clip', E(NS + 'dur', text='3'), E('dur', text='4'), attrs={NS + 'kind': 'a', 'kind': 'b'})))]), B.p('x')], message_id='31'))))
+    out.append(('namespaced payload: roCreate', TJ.to_text(B.ro_doc([B.story('A', [B.item('a1', extra=[E(NS + 'note', text='n')])], md=E('mosExternalMetadata', E('mosSchema', text='v'),
+                E('mosPayload', E(NS + 'StoryDuration', text='9'), E('StoryDuration', text='5'))))], message_id='32'))))
+    out.append(('namespaced payload: roElementAction', TJ.to_text(B.ea('INSERT', {'storyID': 'A'}, [[B.story('N', [E(NS + 'p', text='foreign paragraph'), B.p('real')])]], message_id='33'))))
     g = gen_hist.Gen(rng)
     out.append(('attribute values with quotes', TJ.to_text(B.story_append([B.story('Q', [B.item('Q1', extra=[E('x', text='t', attrs={'note': 'the "late" edition', 'a': "it's", 'nl': 'a\nb', 'amp': 'a&b<c>'})])])], message_id='77'))))
     for k in range(20 if tier == 'quick' else 200):
@@ -540,6 +547,11 @@ def run_c19(tier, seed):
         for lst in lists:
             for cmd in ('detect', 'inspect'):
                 jobs.append((cmd, lst, {}))
+        # (-s / -p / -k filter an S3 listing; with -f they have nothing to say about the files)
+        for lst in lists[::9]:
+            for extra in (['-s', '.mos.xml'], ['-s', '.txt'], ['-p', 'm0'], ['-k', lst[0]]):
+                jobs.append(('detect', lst, {'extra_argv': extra}))
+                jobs.append(('inspect', lst, {'extra_argv': extra}))
         # merge: collections from histories (files written to disk) x option combinations
         hist = hist_run.run_histories([seed * 1237 + k for k in range(10 if tier == 'quick' else 300)], max_steps=6)
         merge_sets = []
@@ -699,7 +711,7 @@ def run_c19(tier, seed):
             paths = [spell_path(root, n, opts.get('paths', 'abs')) for n in lst]
             rec = {'kind': 'cli', 'cmd': cmd, 'files': [[n] + [x.hex() if isinstance(x, bytes) else x for x in pool[n]] for n in lst], 'opts': opts, 'label': f'{cmd} {" ".join(lst)} {opts}'}
             if cmd in ('detect', 'inspect'):
-                so, se, rv = run_cli([cmd, '-f'] + paths)
+                so, se, rv = run_cli([cmd] + list(opts.get('extra_argv', [])) + ['-f'] + paths)
                 status = 0 if rv is None else rv
                 m_out = [l[1] for l in r['lines'] if l[0] == 'out']
                 m_err = [l[1] for l in r['lines'] if l[0] == 'err']
@@ -846,7 +858,7 @@ def replay_c19(pid, fl):
             outp = os.path.join(root, opts['outfile']) if opts.get('outfile') else None
             argv = ['merge', '-f'] + paths + (['-o', outp] if outp else []) + (['-i'] if opts['incomplete'] else []) + (['-n'] if opts['non_strict'] else [])
         else:
-            argv = [fl['cmd'], '-f'] + paths
+            argv = [fl['cmd']] + list(opts.get('extra_argv', [])) + ['-f'] + paths
         so, se, rv = run_cli(argv)
         print(json.dumps({'stdout': so[:2000], 'stderr': se[:1000], 'return': rv}, indent=1))
     finally:
